@@ -3,8 +3,10 @@ package interp
 // Contract-level models of sync, sync/atomic.
 
 import (
+	"fmt"
 	"go/token"
 	"go/types"
+	"os"
 	"unsafe"
 
 	"golang.org/x/tools/go/ssa"
@@ -169,8 +171,30 @@ func initSyncExternals() {
 			}
 			return nil
 		},
+		// sync.Pool: the contract lets Get return any item previously Put (or call New). The model
+		// retains every item and hands back the most recent one: that is what the runtime does on a
+		// single P, and it is the behaviour under which "object still in use after Put" defects
+		// (double Put, use after Put) become visible. Put happens-before the Get that returns it.
 		"(*sync.Pool).Get": func(fr *frame, a []value) value {
-			p := (*a[0].(*value)).(structure)
+			i := fr.i
+			addr := a[0].(*value)
+			if i.sched != nil && i.sched.enabled {
+				i.sched.tick()
+				i.sched.yield(i, "sync.Pool.Get")
+			}
+			if items := i.pools[addr]; len(items) > 0 {
+				it := items[len(items)-1]
+				i.pools[addr] = items[:len(items)-1]
+				i.logUndo(func() { i.pools[addr] = append(i.pools[addr], it) })
+				if i.sched != nil && i.sched.enabled {
+					i.sched.cur.vc.join(i.sched.wgvc[addr])
+					if os.Getenv("SYMGO_POOLDBG") != "" {
+						fmt.Fprintf(os.Stderr, "pool get retained by thread %d (%d left)\n", i.sched.cur.id, len(i.pools[addr]))
+					}
+				}
+				return it
+			}
+			p := (*addr).(structure)
 			// New is the last field
 			newf := p[len(p)-1]
 			if isNilFunc(newf) {
@@ -178,7 +202,21 @@ func initSyncExternals() {
 			}
 			return call(fr.i, fr, token.NoPos, newf, nil)
 		},
-		"(*sync.Pool).Put": func(fr *frame, a []value) value { return nil },
+		"(*sync.Pool).Put": func(fr *frame, a []value) value {
+			i := fr.i
+			addr := a[0].(*value)
+			if i.pools == nil {
+				i.pools = map[*value][]value{}
+			}
+			if i.sched != nil && i.sched.enabled {
+				i.sched.wgRelease(addr)
+				i.sched.tick()
+				i.sched.yield(i, "sync.Pool.Put")
+			}
+			i.pools[addr] = append(i.pools[addr], a[1])
+			i.logUndo(func() { l := i.pools[addr]; i.pools[addr] = l[:len(l)-1] })
+			return nil
+		},
 
 		"(*sync.Map).Load": func(fr *frame, a []value) value {
 			v, ok := fr.i.syncMapOf(a[0]).lookup(fr.i, a[1])
